@@ -42,6 +42,7 @@ PosRaw(n, which) ==
     [] n \in {"colon", "dms"} -> IF which = 1 THEN 37230500 ELSE -73815250          \* 10:20:30.5 and -20:30:15.25
     [] n = "hms" -> IF which = 1 THEN 37230500 ELSE 4000250
 SizeRaw(n, j) == CASE n \in {"plain", "d", "i"} -> 1500 * j [] n = "r" -> 26180 * j [] n = "asec" -> 5400500 * j [] n = "amin" -> 90250 * j
+TextVals == {"\"M31\" core", "radius 30\"", "'tis a test", "{alpha} Cen", "see \"B\"", "a 'b' c", "end}", "{start", "5' x 3\""}
 LexLines(f) ==
   UNION {
     {Region("circle", sg, <<T(p, PosRaw(p, 1)), T(q, PosRaw(q, 2)), T(z, SizeRaw(z, 1))>>, NoProps, FALSE) :
@@ -57,7 +58,10 @@ LexLines(f) ==
     {Region("polygon", "", <<T(p, PosRaw(p, 1)), T(q, PosRaw(q, 2)), T("plain", 151250), T("plain", -20000), T(p, PosRaw(p, 1)), T("plain", -19000)>>, NoProps, FALSE) :
         p \in PosNots(f), q \in PosNots(f) \ {"hms"}},
     {Region("line", "", <<T(p, PosRaw(p, 1)), T("plain", -20500), T("plain", 151250), T(q, PosRaw(q, 2))>>, NoProps, FALSE) : p \in PosNots(f), q \in PosNots(f) \ {"hms"}},
-    {Region("point", sg, <<T(p, PosRaw(p, 1)), T(q, PosRaw(q, 2))>>, [color |-> "red"], FALSE) : p \in PosNots(f), q \in PosNots(f) \ {"hms"}, sg \in {"", "+"}} }
+    {Region("point", sg, <<T(p, PosRaw(p, 1)), T(q, PosRaw(q, 2))>>, [color |-> "red"], FALSE) : p \in PosNots(f), q \in PosNots(f) \ {"hms"}, sg \in {"", "+"}},
+    (* text in {} "" '' is kept verbatim: delimiter characters of the other kinds are ordinary characters *)
+    {Region(sh, "", IF sh = "text" THEN <<T("plain", 150250), T("plain", -20500)>> ELSE <<T("plain", 150250), T("plain", -20500), T("plain", 1500)>>,
+            [text |-> v], FALSE) : sh \in {"text", "circle"}, v \in TextVals} }
 FilesLex == UNION {{<<Frame(f), l>> : l \in LexLines(f)} : f \in Supported}
 
 VARIABLES file, i, s
